@@ -138,6 +138,49 @@ def collide_cases(ctx, opts, tag):
     return out
 
 
+BIGFILE = [('dos33', 'do:5.25in'), ('prodos', 'po:5.25in'), ('prodos', 'po:3.5in-ds'), ('pascal', 'po:5.25in'), ('cpm2', 'do:5.25in'), ('cpm2', 'imd:8in'),
+           ('fat', 'img:5.25in-ibm-dsdd9'), ('fat', 'img:3.5in-ibm-720'), ('fat', 'img:3.5in-ibm-1440'), ('fat', 'imd:5.25in-ibm-dsdd9')]
+
+
+def bigfile_cases(ctx, opts, tag):
+    """one file takes nearly the whole volume (its chain reaches the last sectors of the allocation structures), is deleted, small files
+    follow; the image is serialised and reloaded in between (stale allocation data would show as lost free space)"""
+    out = []
+    for i, (fs, lab) in enumerate(BIGFILE):
+        cfg = fsgen.FS[fs]
+        ext = '.T' if cfg['ext'] else ''
+        z0 = 'ZF0.Z' if (fs.startswith('cpm') or fs == 'fat') else 'ZF0'
+        # the image is serialised after every 4th step: once while the big file exists, again after it is gone
+        ops = [f"P~A{ext}~0~U~~~v", f"P~B{ext}~0-1~U~~~v", f"D~A{ext}", f"Z~{ctx.rng.choice([0, 1, 3])}",
+               f"D~{z0}", f"P~C{ext}~0~U~~~v", f"P~E{ext}~0-2~U~~~v", f"D~C{ext}",
+               f"Z~2", f"D~{z0}", f"P~G{ext}~0~U~~~v", f"D~B{ext}"]
+        out.append(f"fsh {tag}{i} {fs} {lab} {opts} {';'.join(ops)}")
+    return out
+
+
+SUBDIR = [('fat', 'img:5.25in-ibm-dsdd9', 32), ('fat', 'img:5.25in-ibm-ssdd8', 16), ('fat', 'imd:5.25in-ibm-dsdd9', 32), ('prodos', 'po:5.25in', 12), ('prodos', 'woz2:5.25in', 12)]
+
+
+def subdir_cases(ctx, opts, tag):
+    """a subdirectory filled to the end of its unit: the next entry (a file, or another directory) makes it grow; both kinds of entry
+    at every fill level around the boundary"""
+    out = []
+    k = 0
+    for fs, lab, first in SUBDIR:
+        ext = '.T' if fsgen.FS[fs]['ext'] else ''
+        used0 = 2 if fs == 'fat' else 0            # . and .. occupy two entries of a FAT subdirectory
+        for delta in (-1, 0, 1):
+            for kind in ('M', 'P'):
+                n = first - used0 + delta
+                ops = ["M~D1"] + [f"P~D1/F{i}{ext}~0~U~~~v" for i in range(n)]
+                ops += [f"M~D1/SUB" if kind == 'M' else f"P~D1/NEW{ext}~0-1~U~~~v", f"P~D1/AFTER{ext}~0~U~~~v"]
+                if kind == 'M':
+                    ops += [f"P~D1/SUB/IN{ext}~0-1~U~~~v", f"D~D1/F0{ext}", f"P~D1/SUB/IN2{ext}~0~U~~~v"]
+                out.append(f"fsh {tag}{k} {fs} {lab} {opts} {';'.join(ops)}")
+                k += 1
+    return out
+
+
 def dirfill_cases(ctx, opts, tag):
     return [f"fsh {tag}{i} {fs} {lab} {opts} {fsgen.dirfill_history(ctx.rng, fs, cap)}" for i, (fs, lab, cap) in enumerate(DIRFILL)]
 
@@ -165,9 +208,10 @@ def standard_run(ctx, pid, opts='r', lock_heavy=False, also=(), model_ok=True, n
         corr += [c for c in dirfill_cases(ctx, '-', 'md') if c.split()[2] != 'cpm3']
         corr += exactfit_cases(ctx, '-', 'me')
         corr += [c for c in collide_cases(ctx, '-', 'mc') if c.split()[2] != 'cpm3']
+        corr += subdir_cases(ctx, '-', 'ms')
         corr += [' '.join(c.split(' ')[:4] + ['-'] + c.split(' ')[5:]).replace(' k', ' m', 1) for c in corpus_cases(pid) if c.split()[2] != 'cpm3']
         run_correspondence(ctx, corr)
-    oracle = corpus_cases(pid) + collide_cases(ctx, opts, 'oc') + dirfill_cases(ctx, opts, 'od') + exactfit_cases(ctx, opts, 'oe') + gen_cases(ctx, ALL_FS, n_o, opts, False, lock_heavy=lock_heavy, tag='o')
+    oracle = corpus_cases(pid) + collide_cases(ctx, opts, 'oc') + bigfile_cases(ctx, opts, 'ob') + subdir_cases(ctx, opts, 'os') + dirfill_cases(ctx, opts, 'od') + exactfit_cases(ctx, opts, 'oe') + gen_cases(ctx, ALL_FS, n_o, opts, False, lock_heavy=lock_heavy, tag='o')
     out = run_oracle(ctx, pid, oracle, also=also)
     ctx.samples += [oracle[-1][:300] + ' -> ' + (out.get(oracle[-1].split()[1]) or '')[:300]]
     ctx.distribution['rule'] = ('a case is one operation history on one (file system, disk kind, container); distinct by text; non-trivial = it ran to its end or to an '
